@@ -76,6 +76,21 @@ def b_terms(job):
             pool[s].append(i)
         return i
     n = job.get("size", 60)
+    if job.get("burst") == "distinct":
+        # use up the 32 distinct classes of the term store first: later distinct terms take the fallback encoding
+        seen_d = set()
+        for s_ in (INT, REAL, "U"):
+            for nm in ("d1", "d2", "d3"):
+                add_var(nm + s_[0].lower(), s_)
+        tries = 0
+        while len(seen_d) < 36 and tries < 400:
+            tries += 1
+            s_ = rng.choice([INT, REAL, "U"])
+            args = tuple(rng.sample(pool[s_], 3)) if len(pool[s_]) >= 3 else None
+            if args and frozenset(args) not in seen_d and len(set(items[a] for a in args)) == 3:
+                if add_mk("distinct", list(args)) is not None:
+                    seen_d.add(frozenset(args))
+        n += len(seen_d)
     steps = 0
     while len(reqs) < n + 25 and steps < 4 * n:
         steps += 1
@@ -126,8 +141,20 @@ def b_terms(job):
                 add_mk("select", [pick(A), pick(INT)])
             else:
                 add_mk("store", [pick(A), pick(INT), pick(INT)])
+        # the same commutative application in both argument orders, over arguments of different shape and age
+        # (products, sums, plain variables, applications): normalisation must not depend on the order of arrival
+        if rng.random() < 0.15:
+            s = rng.choice([INT, REAL])
+            prods = [i for i, op_, a_, r_ in reqs if op_ in ("*", "+", "ite", "uf:h") and tb.sort(r_) == s]
+            if prods:
+                a, b = rng.choice(prods), pick(s)
+                op2 = rng.choice(["+", "+", "=", "distinct"])
+                add_mk(op2, [a, b]); add_mk(op2, [b, a])
+                if rng.random() < 0.4:
+                    c = pick(s)
+                    add_mk("+", [a, b, c]); add_mk("+", [c, a, b]); add_mk("+", [b, c, a])
         # repeat a recent construction, possibly with permuted arguments (hash-consing)
-        if rng.random() < 0.2 and reqs:
+        if rng.random() < 0.3 and reqs:
             i, op, args, ref = rng.choice(reqs[-15:])
             if op not in ("var", "num"):
                 a2 = list(args)
